@@ -705,6 +705,14 @@ func (fr *Frame) unop(b *ssa.BasicBlock, x *ssa.UnOp, st *State, reach string) {
 			fr.bind(x, Val{S: vc.eng.eofErr()})
 			return
 		}
+		if g, ok := x.X.(*ssa.Global); ok {
+			if k := vc.eng.constGlobal(g); k != nil {
+				// a package variable of basic type that is written only by its
+				// initialiser: its value is the initial one
+				fr.bind(x, vc.constVal(k))
+				return
+			}
+		}
 		l := vc.locOf(v)
 		if (l.Kind == locStruct || l.Kind == locBox) && len(l.Path) == 0 {
 			fr.checkNonNil(b, l.Ref, reach, x.Pos())
